@@ -339,8 +339,7 @@ def real_catalog(fs, raw=None):
 
 def session_obs(conn):
     """(conn.database, conn.schema, DuckDB-level current database/schema of the session's own connection)"""
-    d = getattr(conn, "_duck_conn", None)
-    d = getattr(d, "_r", d)
+    d = observe.engine_conn(conn)
     try:
         raw = tuple(d.execute("select current_database(), current_schema()").fetchall()[0])
     except Exception as e:  # noqa: BLE001
